@@ -319,6 +319,7 @@ type world struct {
 
 	// oracle bookkeeping
 	l1        int64  // recorded L1 head (-1 none)
+	specL1    *uint64 // the L1 head an L1 event in flight carries (it IS L1-confirmed, written right after); nil = none
 	fspec     uint64 // highest floor the property allows so far
 	cutoff    uint64 // min-age cutoff (unix seconds) the scenario was built around; 0 = min-age off
 	situation string // steady | mid-prune | after-cancel | after-failed-write | after-crash-mid-prune | after-restart
@@ -585,10 +586,14 @@ func (w *world) minAgeBlock() uint64 {
 // bumpSpecFloor: the property allows the floor to be as high as min(L1 head, local head) - retained,
 // capped by the oldest block younger than the min-age; it never has to come down again.
 func (w *world) bumpSpecFloor() {
-	if w.l1 < 0 || w.height < 0 {
+	l1 := w.l1
+	if w.specL1 != nil && int64(*w.specL1) > l1 {
+		l1 = int64(*w.specL1)
+	}
+	if l1 < 0 || w.height < 0 {
 		return
 	}
-	pivot := uint64(w.l1)
+	pivot := uint64(l1)
 	if uint64(w.height) < pivot {
 		pivot = uint64(w.height)
 	}
@@ -1239,7 +1244,17 @@ func (w *world) oracle(items []obsItem, headClass, headDet string) {
 		// (3) outside a prune: at or above the floor the node itself reports — OldestRetainedBlock for block
 		//     data (it is what BlockPrunedError tells the user), and for historical state additionally the
 		//     shared RetentionFloor the readers consult (raised before a prune deletes anything)
-		if w.quiescent && haveOldest {
+		// (8) below the floor the node itself reports, every query that reads an entry the pruner deletes with the
+		//     block says not found / pruned — never data, not even right data (header: lag window; hash→number and
+		//     the state readers: from one block lower). Repaired procedure: also mid-prune and on crash images.
+		if (w.quiescent || w.fixed) && haveOldest && it.class == "ok" && it.model != "headerByNumber" {
+			oneLower := it.model == "numberByHash" || it.model == "headerByHash" || isState
+			if (!oneLower && it.n < oldest) || (oneLower && it.n+1 < oldest) {
+				w.violate("below-floor-answers-"+fam+"-"+sit, where+fmt.Sprintf(" [oldest retained block %d]", oldest))
+				continue
+			}
+		}
+		if (w.quiescent || w.fixed) && haveOldest {
 			lim = oldest
 			if isState {
 				if lim > 0 {
